@@ -835,6 +835,72 @@ def resent_init_request(ck, rng, i):
             ck.violation('resent-request:handshake-on-the-second-exchange-not-completed', dict(det, states=[x.state.name for x in b.ctl.ike_sas]), sim.case)
 
 
+def defaults_beside_explicit_lists(ck, rng, i):
+    """A daemon with TWO connections: the first one names its own algorithm lists, the second one leaves `encr` / `integ` / `prf` / `dh` to the documented defaults
+    (aes256, sha256, sha256, group 14). An independent initiator on the SECOND connection offers the defaults (chosen), only the neighbour's algorithms
+    (NO_PROPOSAL_CHOSEN), or both (the defaults win): each connection is judged by what IT says."""
+    explicit = [dict(encr=['aes128'], integ=['sha1'], prf=['sha1'], dh=['19']), dict(encr=['aes128', 'aes256'], dh=['20', '19']), dict(integ=['sha512'], prf=['sha512']),
+                dict(dh=['21'])][i % 4]
+    offer_kind = ('defaults', 'neighbours-algorithms', 'both-neighbours-first')[(i // 4) % 3]
+
+    def edit(hub_conf):
+        names = list(hub_conf)
+        for k_ in ('encr', 'integ', 'prf', 'dh'):
+            hub_conf[names[0]].pop(k_, None)
+            hub_conf[names[1]].pop(k_, None)
+        hub_conf[names[0]].update({k_: list(v_) for k_, v_ in explicit.items()})
+    sim, hub, (p1, p2) = S.make_star(ck.seed * 47 + i, peers=2, hub_edit=edit)
+    sim.case = {'family': 'defaults-beside-explicit-lists', 'first_connection_sets': explicit, 'offer': offer_kind}
+    P2A, HUB = str(p2.addrs[0]), str(hub.addrs[0])
+    T = lambda t, d, k=None: {'type': t, 'id': d, 'keylen': k}
+    defaults = [T(1, 12, 256), T(3, 12), T(2, 5), T(4, 14)]
+    full_first = {'encr': ['aes256'], 'integ': ['sha256'], 'prf': ['sha256'], 'dh': ['14']}
+    full_first.update(explicit)
+    neigh = [{'type': t_[0], 'id': t_[1], 'keylen': t_[2]} for t_ in ike_list(full_first)]
+    neigh_only = [t for t in neigh if t not in defaults]
+    # an offer needs one transform of every type: the neighbour's own where it differs from the defaults, nothing of the defaults for those types
+    types_differing = {t['type'] for t in neigh_only}
+    if offer_kind == 'defaults':
+        offer, g = defaults, 14
+    elif offer_kind == 'neighbours-algorithms':
+        offer = neigh_only + [t for t in defaults if t['type'] not in types_differing]
+        g = next(t['id'] for t in offer if t['type'] == 4)
+    else:
+        offer = neigh_only + defaults
+        g = 14
+    p = party.RefParty(P2A, HUB, rng)
+    sim.inject(hub, P2A, HUB, p.init_request(offer, g))
+    out = [d.data for d in sim.net if d.dst == P2A]
+    sim.net.clear()
+    ck.count('defaults_lists.requests')
+    ck.nontrivial(('defaults-beside-explicit-lists', i % 4, offer_kind))
+    want = negotiate.select({'proto': 1, 'transforms': [(1, 12, 256), (3, 12, None), (2, 5, None), (4, 14, None)]}, {'proto': 1, 'transforms': [(t['type'], t['id'], t['keylen']) for t in offer]})
+    det = {'offer': offer, 'ke_group': g, 'want': want and list(want.values())}
+    if not out:
+        ck.violation('connection-with-default-lists:request-not-answered', det, sim.case)
+        return
+    m = codec.decode(out[0], strict_bodies=False)
+    sa = next((x for x in m['payloads'] if x['type'] == codec.SA), None)
+    nts = {x['ntype']: x['data'] for x in m['payloads'] if x['type'] == codec.NOTIFY}
+    if want is None:
+        if sa is not None or 14 not in nts:
+            ck.violation('connection-that-leaves-its-lists-to-the-defaults-accepted-an-offer-of-its-neighbours-algorithms-only', dict(det, notifies=sorted(nts), answered_sa=sa is not None), sim.case)
+        else:
+            ck.count('defaults_lists.neighbours_algorithms_refused')
+        return
+    if want[4][1] != g:
+        if sa is not None or nts.get(17) != struct.pack('>H', want[4][1]):
+            ck.violation('connection-with-default-lists:ke-in-another-group-not-answered-with-invalid-ke-payload-naming-the-default-group', dict(det, notifies=sorted(nts)), sim.case)
+        else:
+            ck.count('defaults_lists.invalid_ke_names_the_default_group')
+        return
+    got = sa and [(t['type'], t['id'], t['keylen']) for t in sa['proposals'][0]['transforms']]
+    if sa is None or sorted(got, key=str) != sorted(want.values(), key=str):
+        ck.violation('connection-that-leaves-its-lists-to-the-defaults-did-not-choose-the-default-suite', dict(det, got=got, notifies=sorted(nts)), sim.case)
+    else:
+        ck.count('defaults_lists.default_suite_chosen')
+
+
 def run(ck):
     rng = ck.rng('c11', ck.shard[0])
     n = 5000
@@ -854,6 +920,9 @@ def run(ck):
     for i in range(48 if not ck.thorough() else 960):
         if ck.mine(i // 6):
             ke_group_aliases(ck, ck.rng('kealias', i), i)
+    for i in range(24 if not ck.thorough() else 480):
+        if ck.mine(i + 5):
+            defaults_beside_explicit_lists(ck, ck.rng('deflists', i), i)
     for i in range(6 * len(RESENT_SECOND) if not ck.thorough() else 120 * len(RESENT_SECOND)):
         if ck.mine(i + 3):
             resent_init_request(ck, ck.rng('resent', i), i)
@@ -893,6 +962,8 @@ def verdict(ck):
     ck.floor('... refused with NO_PROPOSAL_CHOSEN because nothing was common', c['peer_child.rekey-child.no_proposal_chosen'] + c['peer_child.new-child.no_proposal_chosen'], 15)
     ck.floor('second IKE_SA_INIT requests with the SPI of an already answered one', c['resent.second_requests'], 40)
     ck.floor('... whose answer was the selection over the second offer, handshake completed on it', c['resent.handshake_completed_with_the_second_exchange'], 15)
+    ck.floor('requests on a connection with default lists beside a connection with its own', c['defaults_lists.requests'], 20)
+    ck.floor('... answered with the default suite', c['defaults_lists.default_suite_chosen'], 6)
     ck.floor('tampered-response variants', len(ck.sets['tamper.labels']) + c['tamper.invalid_ke'], 34)
     ck.floor('initiator acceptances judged end to end', c['e2e.initiator_acceptance_judged'], 200)
     return None
